@@ -226,6 +226,13 @@ pub trait RemoteSyncHandler {
                     .collect::<HashMap<_, _>>();
                 for (id, maybe_diff) in merge_folders {
                     if let MaybeDiff::Diff(diff) = maybe_diff {
+                        // A folder created on another device does not
+                        // exist locally whilst the account events that
+                        // create it are in conflict; it is merged by a
+                        // later sync once the conflict has been resolved
+                        if account.folder_log(&id).await.is_err() {
+                            continue;
+                        }
                         account.merge_folder(&id, diff, &mut outcome).await?;
                     }
                 }
